@@ -606,6 +606,8 @@ var c09Text = []struct{ prog, want string }{
 	// a location created by the right-hand side of the assignment is kept, not replaced
 	{"BEGIN { o = {}; o.b.x = o.b.y = 1; a[1].p = a[1].q = a[0] = 2; print o, a }", "{\"b\": {\"x\": 1, \"y\": 1}} [2, {\"p\": 2, \"q\": 2}]\n"},
 	{"function side() { $.m.made = $.i; return 'r' } { $.m.res = side(); print $.m }", "{\"made\": 2, \"res\": \"r\"}\n{\"made\": 5, \"res\": \"r\"}\n"},
+	// ... also when what the right-hand side put there is an unset value (a store below it makes it a container, as in two statements)
+	{"BEGIN { o = {}; o.b.x = o.b = neverset; a = []; a[0][1] = a[0] = neverset; p = {q: {}}; p.q.r = p.q = neverset; print json(o), json(a), json(p) }", "{\n  \"b\": {\n    \"x\": null\n  }\n} [\n  [\n    null,\n    null\n  ]\n] {\n  \"q\": {\n    \"r\": null\n  }\n}\n"},
 	// ... also when the store goes deeper: the missing member is created as an object or array, as under any other name
 	{"BEGIN { o = {}; o.length.x = 1; o.pluck[1] = 'p'; o.sort.by.key++; print o, o.length.x, o.pluck.length() }", "{\"length\": {\"x\": 1}, \"pluck\": [null, \"p\"], \"sort\": {\"by\": {\"key\": 1}}} 1 2\n"},
 	{"{ $.contains.n = $.i; $.split.length = 1; print $ }", "{\"a\": 3, \"contains\": {\"n\": 2}, \"i\": 2, \"length\": 1, \"pluck\": \"x\", \"split\": {\"length\": 1}, \"v\": 7}\n{\"a\": 3, \"contains\": {\"n\": 5}, \"i\": 5, \"length\": 1, \"pluck\": \"x\", \"split\": {\"length\": 1}, \"v\": 8}\n"},
